@@ -140,6 +140,7 @@ type Property struct {
 
 type RuleSummary struct {
 	Rule       string `json:"rule"`
+	Scope      string `json:"scope,omitempty"`
 	Doc        string `json:"doc"`
 	Instances  int    `json:"instances"`
 	Floor      int    `json:"floor"`
